@@ -131,3 +131,33 @@ Proof. intro H. apply firstn_all2. rewrite app_length. cbn. lia. Qed.
 
 Lemma repeat_split (x : N) n k : k <= n -> repeat x n = repeat x k ++ repeat x (n - k).
 Proof. intro H. rewrite <- repeat_app. f_equal. lia. Qed.
+
+(* ---- buffers whose text may hold 0 bytes ------------------------------------------------- *)
+
+Lemma cstr_clit l r : cstr (l ++ 0%N :: r) = Some (clit l).
+Proof.
+  induction l as [|x l IH]; cbn; [reflexivity|].
+  destruct (N.eqb_spec x 0) as [E|E]; [reflexivity|]. now rewrite IH.
+Qed.
+
+Lemma clit_length l : length (clit l) <= length l.
+Proof.
+  induction l as [|x l IH]; cbn; [lia|].
+  destruct (N.eqb x 0); cbn; lia.
+Qed.
+
+Lemma nonul_nz l : nonul l = true -> nz l.
+Proof.
+  unfold nonul. intro H. rewrite forallb_forall in H. apply Forall_forall.
+  intros x Hx. specialize (H x Hx). apply negb_true_iff in H. now apply N.eqb_neq.
+Qed.
+
+Lemma nz_repeat_free (l : list N) : nz l -> clit l = l.
+Proof. apply clit_nz. Qed.
+
+Lemma app_inv_len (l1 l2 r1 r2 : list N) :
+  l1 ++ r1 = l2 ++ r2 -> length l1 = length l2 -> l1 = l2.
+Proof.
+  revert l2. induction l1 as [|x l1 IH]; intros [|y l2] H Hl; cbn in *; try lia; [reflexivity|].
+  inversion H; subst. f_equal. apply IH; [assumption|lia].
+Qed.
